@@ -119,6 +119,66 @@ class Builtin:
 REFUSAL = (ValueError, OSError, IndexError, struct.error)
 
 
+def _read_bounds(name: str, evidence: list) -> tuple[int, int, bool]:
+    los: list[int] = []
+    his: list[int] = []
+    builtin_only = True
+    for e in evidence:
+        if isinstance(e, Builtin):
+            los.append(e.lo)
+            his.append(e.hi)
+            continue
+        v = e.value()
+        if v is None:
+            continue
+        (los if v[0] == 'lo' else his).append(v[1])
+        if v[0] == 'hi':
+            builtin_only = False
+    if not his or not los:
+        raise Translator(f'{name}: no {"upper" if not his else "lower"} bound found in the source')
+    return max(los), min(his), builtin_only
+
+
+_CEIL = 1 << 200
+
+
+def _measure(name: str, probe: Callable[[int], bool]) -> tuple[int, int]:
+    """The accepted range of a field by probing: a witness, the two edges by doubling + bisection, and then the
+    assumption the bisection rests on (the accepted set is ONE interval) tested at every 2^k - 1, 2^k, 2^k + 1
+    and their negatives up to 2^130, and at 64 evenly spread inner points."""
+    witness = next((w for w in (1, 0, 2, 7, 19, 100, 1500, 70000) if probe(w)), None)
+    if witness is None:
+        raise Translator(f'{name}: the comparison moved and no small value is accepted, nothing to measure from')
+    step, good = 1, witness
+    while probe(good + step):
+        good += step
+        step *= 2
+        if good > _CEIL:
+            raise Translator(f'{name}: the comparison moved and the parser accepts values beyond 2^200')
+    bad = good + step
+    while bad - good > 1:
+        mid = (good + bad) // 2
+        good, bad = (mid, bad) if probe(mid) else (good, mid)
+    hi = good
+    step, good = 1, witness
+    while probe(good - step):
+        good -= step
+        step *= 2
+        if good < -_CEIL:
+            raise Translator(f'{name}: the comparison moved and the parser accepts values below -2^200')
+    bad = good - step
+    while good - bad > 1:
+        mid = (good + bad) // 2
+        good, bad = (mid, bad) if probe(mid) else (good, mid)
+    lo = good
+    points = {s * ((1 << k) + d) for k in range(131) for d in (-1, 0, 1) for s in (1, -1)}
+    points |= {lo + (hi - lo) * i // 64 for i in range(65)}
+    for v in sorted(points):
+        if probe(v) != (lo <= v <= hi):
+            raise Translator(f'{name}: the comparison moved and what the parser accepts is not one interval: measured [{lo}, {hi}], {v} is {"accepted" if probe(v) else "refused"}')
+    return lo, hi
+
+
 def generate() -> dict[str, str]:
     from exabgp.bgp.message.open.asn import AS_TRANS, ASN
     from exabgp.bgp.message.open.capability.asn4 import ASN4
@@ -154,21 +214,19 @@ def generate() -> dict[str, str]:
     isdigit_value = lambda f: Has(f, 'value.isdigit()', lo=True)  # noqa: E731
     asn_hi = Cmp(ASN.from_string, 'as_number > cls.MAX_4BYTE', 'refuse>', 'cls.MAX_4BYTE', {'cls': ASN})
     asn_lo = Has(ASN.from_string, '_decimal(value)', lo=True)
-    enc = sp._ENCODE
+    enc = getattr(sp, '_ENCODE', None)
 
     def ext(letter_of: tuple[str, int]):
         """The bound `_encode` applies to a component: by the struct letter of `_ENCODE[form][index]`."""
+        # the forms `_encode` switches between: a number above _SIZE_H is the four-octet AS form, a dotted one the IPv4 form
+        if enc is None or enc.get('target') != 'HL' or enc.get('target-asn4') != 'LH' or enc.get('target4') != 'LH' or enc.get('l2info') != 'BBHH':
+            raise Translator(f'_ENCODE changed: {enc}')
         form, index = letter_of
         letter = enc[form][index]
         cmp_text = {'B': 'value > _SIZE_B', 'H': 'value > _SIZE_H', 'L': 'value > _SIZE_L'}[letter]
         sel_text = {'B': "size == 'B'", 'H': "size == 'H'", 'L': "size in ('L', 'f')"}[letter]
         return [Cmp(sp._encode, cmp_text, 'refuse>', {'B': '_SIZE_B', 'H': '_SIZE_H', 'L': '_SIZE_L'}[letter]), Has(sp._encode, sel_text), Has(sp._digit, 'string.isdigit()', lo=True)]
 
-    # the forms `_encode` switches between: a number above _SIZE_H is the four-octet AS form, a dotted one the IPv4 form
-    if enc['target'] != 'HL' or enc['target-asn4'] != 'LH' or enc['target4'] != 'LH' or enc['l2info'] != 'BBHH':
-        raise Translator(f'_ENCODE changed: {enc}')
-    ext_switch = Cmp(sp._encode, 'components[0] > _SIZE_H', 'refuse>', '_SIZE_H')
-    ext_switch.value()
 
     def flow(klass, conv_evidence: list):
         return [Cmp(fp._generic_condition, '0 <= number < 1 << 8 * max(klass.VALUE_SIZES)', 'accept<', '1 << 8 * max(klass.VALUE_SIZES)', {'klass': klass}), Cmp(fp._generic_condition, '0 <= number < 1 << 8 * max(klass.VALUE_SIZES)', 'accept0<=')] + conv_evidence
@@ -200,7 +258,10 @@ def generate() -> dict[str, str]:
 
     # list lengths: the parser hands the byte length to _sendable; unit = bytes one element adds to the attribute
     sendable = Cmp(sp._sendable, 'size > ATTRIBUTE_VALUE_MAX', 'refuse>', 'ATTRIBUTE_VALUE_MAX')
-    value_max = sendable.value()[1]
+    try:
+        value_max = sendable.value()[1]
+    except Translator:
+        value_max = _measure('_sendable', lambda v: v >= 0 and run(lambda: sp._sendable('x', v)))[1]
 
     def unit_of(parse: Callable[[int], Any]) -> int:
         return len(parse(2)) - len(parse(1))
@@ -235,15 +296,15 @@ def generate() -> dict[str, str]:
         ('largeGlobal', [Cmp(sp._large_community, 'i > _SIZE_L', 'refuse>', '_SIZE_L'), Has(sp._large_community, 'c.isdigit()', lo=True)], lambda v: run(lambda: sp._large_community(f'{v}:1:1'))),
         ('largeLocal1', [Cmp(sp._large_community, 'i > _SIZE_L', 'refuse>', '_SIZE_L'), Has(sp._large_community, 'c.isdigit()', lo=True)], lambda v: run(lambda: sp._large_community(f'1:{v}:1'))),
         ('largeLocal2', [Cmp(sp._large_community, 'i > _SIZE_L', 'refuse>', '_SIZE_L'), Has(sp._large_community, 'c.isdigit()', lo=True)], lambda v: run(lambda: sp._large_community(f'1:1:{v}'))),
-        ('extAdmin', ext(('target-asn4', 0)) + [Has(sp._encode, 'components[0] > _SIZE_H')], lambda v: run(lambda: sp._extended_community(f'target:{v}:1'))),
-        ('extLocalA16', ext(('target', 1)), lambda v: run(lambda: sp._extended_community(f'target:1:{v}'))),
-        ('extLocalA32', ext(('target-asn4', 1)), lambda v: run(lambda: sp._extended_community(f'target:70000:{v}'))),
+        ('extAdmin', lambda: ext(('target-asn4', 0)) + [Has(sp._encode, 'components[0] > _SIZE_H')], lambda v: run(lambda: sp._extended_community(f'target:{v}:1'))),
+        ('extLocalA16', lambda: ext(('target', 1)), lambda v: run(lambda: sp._extended_community(f'target:1:{v}'))),
+        ('extLocalA32', lambda: ext(('target-asn4', 1)), lambda v: run(lambda: sp._extended_community(f'target:70000:{v}'))),
         ('extIpOctet', [Cmp(sp._ip, 'number > _SIZE_B', 'refuse>', '_SIZE_B'), Has(sp._ip, 'part.isdigit()', lo=True)], lambda v: run(lambda: sp._extended_community(f'target:1.2.3.{v}:1'))),
-        ('extLocalIp', ext(('target4', 1)), lambda v: run(lambda: sp._extended_community(f'target:1.2.3.4:{v}'))),
-        ('l2infoEncaps', ext(('l2info', 0)), lambda v: run(lambda: sp._extended_community(f'l2info:{v}:0:1500:111'))),
-        ('l2infoControl', ext(('l2info', 1)), lambda v: run(lambda: sp._extended_community(f'l2info:19:{v}:1500:111'))),
-        ('l2infoMtu', ext(('l2info', 2)), lambda v: run(lambda: sp._extended_community(f'l2info:19:0:{v}:111'))),
-        ('l2infoPref', ext(('l2info', 3)), lambda v: run(lambda: sp._extended_community(f'l2info:19:0:1500:{v}'))),
+        ('extLocalIp', lambda: ext(('target4', 1)), lambda v: run(lambda: sp._extended_community(f'target:1.2.3.4:{v}'))),
+        ('l2infoEncaps', lambda: ext(('l2info', 0)), lambda v: run(lambda: sp._extended_community(f'l2info:{v}:0:1500:111'))),
+        ('l2infoControl', lambda: ext(('l2info', 1)), lambda v: run(lambda: sp._extended_community(f'l2info:19:{v}:1500:111'))),
+        ('l2infoMtu', lambda: ext(('l2info', 2)), lambda v: run(lambda: sp._extended_community(f'l2info:19:0:{v}:111'))),
+        ('l2infoPref', lambda: ext(('l2info', 3)), lambda v: run(lambda: sp._extended_community(f'l2info:19:0:1500:{v}'))),
         ('med', [Cmp(MED.from_int, '0 <= med <= 4294967295', 'accept<=', '4294967295'), isdigit_value(sp.med)], lambda v: run(lambda: sp.med(tok(str(v))))),
         ('localPref', [Cmp(LocalPreference.from_int, '0 <= localpref <= 4294967295', 'accept<=', '4294967295'), isdigit_value(sp.local_preference)], lambda v: run(lambda: sp.local_preference(tok(str(v))))),
         ('aigp', [Cmp(sp.aigp, 'number > AIGP_MAX', 'refuse>', 'AIGP_MAX'), Cmp(sp.aigp, 'number < 0', 'refuse<0')], lambda v: run(lambda: sp.aigp(tok(str(v))))),
@@ -264,8 +325,8 @@ def generate() -> dict[str, str]:
         ('rdAssignedIp', [Cmp(rd, 'suffix >= pow(2, 16)', 'refuse>=', 'pow(2, 16)'), Has(rd, 'assigned.isdigit()', lo=True)], lambda v: run(lambda: rd(tok(f'1.2.3.4:{v}')))),
         ('pathInfo', [Cmp(sp.path_information, 'number > _SIZE_L', 'refuse>', '_SIZE_L'), Has(sp.path_information, 'pi.isdigit()', lo=True)], lambda v: run(lambda: sp.path_information(tok(str(v))))),
         ('pathInfoOctet', [Builtin('PathInfo.make_from_ip -> bytes([int(octet)])', 0, 255)], lambda v: run(lambda: sp.path_information(tok(f'1.2.3.{v}')))),
-        ('mask4', mask('ipv4'), lambda v: run(lambda: sp.prefix(tok(f'0.0.0.0/{v}')))),
-        ('mask6', mask('ipv6'), lambda v: run(lambda: sp.prefix(tok(f'::/{v}')))),
+        ('mask4', lambda: mask('ipv4'), lambda v: run(lambda: sp.prefix(tok(f'0.0.0.0/{v}')))),
+        ('mask6', lambda: mask('ipv6'), lambda v: run(lambda: sp.prefix(tok(f'::/{v}')))),
         ('vplsEndpoint', [Cmp(vp.vpls_endpoint, 'number > VPLS_PARAM_MAX', 'refuse>', 'VPLS_PARAM_MAX'), Cmp(vp.vpls_endpoint, 'number < 0', 'refuse<0')], lambda v: run(lambda: vp.vpls_endpoint(tok(str(v))))),
         ('vplsOffset', [Cmp(vp.vpls_offset, 'number > VPLS_PARAM_MAX', 'refuse>', 'VPLS_PARAM_MAX'), Cmp(vp.vpls_offset, 'number < 0', 'refuse<0')], lambda v: run(lambda: vp.vpls_offset(tok(str(v))))),
         ('vplsSize', [Cmp(vp.vpls_size, 'number > VPLS_PARAM_MAX', 'refuse>', 'VPLS_PARAM_MAX'), Cmp(vp.vpls_size, 'number < 0', 'refuse<0')], lambda v: run(lambda: vp.vpls_size(tok(str(v))))),
@@ -283,8 +344,8 @@ def generate() -> dict[str, str]:
         ('flowTrafficClass', flow(nflow.FlowTrafficClass, [Cmp(nflow.class_value, 'number > MAX_TRAFFIC_CLASS', 'refuse>', 'MAX_TRAFFIC_CLASS'), Cmp(nflow.class_value, 'number < 0', 'refuse<0')]), lambda v: run(lambda: fp.traffic_class(tok(str(v))))),
         ('flowFragment', flow(nflow.FlowFragment, resource), lambda v: run(lambda: fp.fragment(tok(str(v))))),
         ('flowLabel', flow(nflow.FlowFlowLabel, [Cmp(nflow.label_value, 'number > MAX_FLOW_LABEL', 'refuse>', 'MAX_FLOW_LABEL'), Cmp(nflow.label_value, 'number < 0', 'refuse<0')]), lambda v: run(lambda: fp.flow_label(tok(str(v))))),
-        ('flowMask4', flow_mask('_prefix_bounds(int(netmask), 32)'), lambda v: run(lambda: fp.destination(tok(f'0.0.0.0/{v}')))),
-        ('flowMask6', flow_mask('_prefix_bounds(int(netmask), 128)'), lambda v: run(lambda: fp.destination(tok(f'::/{v}')))),
+        ('flowMask4', lambda: flow_mask('_prefix_bounds(int(netmask), 32)'), lambda v: run(lambda: fp.destination(tok(f'0.0.0.0/{v}')))),
+        ('flowMask6', lambda: flow_mask('_prefix_bounds(int(netmask), 128)'), lambda v: run(lambda: fp.destination(tok(f'::/{v}')))),
         # swept with a prefix length of 128 (`::/128/<offset>`): `offset >= netmask` refuses from 128 on
         ('flowOffset6', [Has(fp.destination, '_prefix_bounds(int(netmask), 128, int(offset))'), Cmp(fp._prefix_bounds, 'offset >= netmask', 'refuse>=', 'netmask', {'netmask': 128}), Cmp(fp._prefix_bounds, 'offset < 0', 'refuse<0')], lambda v: run(lambda: fp.destination(tok(f'::/128/{v}')))),
         ('redirectAdmin', [Has(fp.redirect, 'ASN4.validate(asn)'), Cmp(ASN4.validate, '0 <= value <= ASN.MAX_4BYTE', 'accept<=', 'ASN.MAX_4BYTE'), Has(fp.redirect, 'prefix.isdigit()', lo=True)], lambda v: run(lambda: fp.redirect(tok(f'{v}:1')))),
@@ -296,24 +357,21 @@ def generate() -> dict[str, str]:
     out_rows: list[tuple[str, int, int]] = []
     origins: list[tuple[str, str]] = []
     from_source = 0
+    measured_rows = 0
     for name, evidence, probe in rows:
-        los: list[int] = []
-        his: list[int] = []
-        builtin_only = True
-        for e in evidence:
-            if isinstance(e, Builtin):
-                los.append(e.lo)
-                his.append(e.hi)
-                continue
-            v = e.value()
-            if v is None:
-                continue
-            (los if v[0] == 'lo' else his).append(v[1])
-            if v[0] == 'hi':
-                builtin_only = False
-        if not his or not los:
-            raise Translator(f'{name}: no {"upper" if not his else "lower"} bound found in the source')
-        lo, hi = max(los), min(his)
+        try:
+            if callable(evidence):  # evidence whose construction already reads the source
+                evidence = evidence()
+            lo, hi, builtin_only = _read_bounds(name, evidence)
+            origin = ' ; '.join(e.origin() for e in evidence)
+        except Translator as moved:
+            # the comparison is not where it was (renamed local, extracted helper, table of limits): the range is
+            # MEASURED on the live parser instead, and the origin says so; a bound that really changed then shows
+            # as a changed row = a changed proof obligation, a harmless rewrite as the same row
+            lo, hi = _measure(name, probe)
+            builtin_only = True
+            measured_rows += 1
+            origin = f'measured on the live parser (source evidence moved: {moved})'
         if not builtin_only:
             from_source += 1
         # the reading of the source against the live function
@@ -322,7 +380,7 @@ def generate() -> dict[str, str]:
             if got != want:
                 raise Translator(f'{name}: the source says [{lo}, {hi}] and the parser {"accepts" if got else "refuses"} {v}')
         out_rows.append((name, lo, hi))
-        origins.append((name, ' ; '.join(e.origin() for e in evidence)))
+        origins.append((name, origin))
 
     # widest value each FlowSpec component class encodes (VALUE_SIZES), in bytes
     comp = {
